@@ -164,6 +164,26 @@ Theorem scan_of_unordered_explicit_ids_refuted : exists lg,
   Forall (fun oe => ids_ok (snd oe)) lg /\ offs_sorted (model_log true lg) /\ ~ log_mono (model_log true lg).
 Proof. exact (ex_intro _ ooo_log (conj (proj1 ooo_log_shape) (conj (proj2 ooo_log_shape) ooo_log_not_mono))). Qed.
 
+(* The second condition of `pair_fits` (the storage holds no number the log does not have) cannot be
+   dropped either:
+     forall c L pn po acts s k n s', log_mono L -> offs_sorted L -> (forall k, log_max_below k L po <= num pn k) ->
+       (L <> [] -> po <= last_off L + 1) -> run c (fresh pn po L) acts = Some s -> step c s (CNext k n) = Some s' -> num (p_nums s) k < n
+   is false: storage holds 102 with offset 5, log event 5 records 101 (numbers of a sixth transaction
+   were flushed, its event never reached the log: outside the client protocol, under which Flush
+   follows the append); `Next` takes the log-derived toBeFlushed value 101 before it looks at the
+   storage and returns 102 again.  Inside the protocol the state is unreachable (clause i_F). *)
+Theorem stored_number_ahead_of_log_refuted : exists c L pn po acts s k n s',
+  log_mono L /\ offs_sorted L /\ (forall k, log_max_below k L po <= num pn k) /\ (L <> [] -> po <= last_off L + 1) /\
+  run c (fresh pn po L) acts = Some s /\ step c s (CNext k n) = Some s' /\ n <= num (p_nums s) k.
+Proof.
+  exact (match stored_number_ahead_of_log_returned_again, ahead_log_shape with
+         | ex_intro _ s (ex_intro _ s' (conj H1 (conj H2 H3))), conj Hm (conj Hs (conj Hp Hl)) =>
+             ex_intro _ (mkCfg 100 500) (ex_intro _ ahead_log (ex_intro _ [(0, 102)] (ex_intro _ 5 (ex_intro _ ahead_acts
+               (ex_intro _ s (ex_intro _ 0 (ex_intro _ 102 (ex_intro _ s'
+                 (conj Hm (conj Hs (conj Hp (conj Hl (conj H1 (conj H2 H3))))))))))))))
+         end).
+Qed.
+
 (* non-vacuity of (a): an ODoc argument with two nested records, a singleton, an explicit reserved id,
    two issued ids and an update of an old record in one event *)
 Example scan_batch_nonvacuous :
@@ -212,3 +232,4 @@ Print Assumptions unfiltered_scan_breaks_model_hypothesis_refuted.
 Print Assumptions unfiltered_scan_reissues_refuted.
 Print Assumptions scan_of_unordered_explicit_ids_refuted.
 Print Assumptions agrees_implies_satisfies_history_case.
+Print Assumptions stored_number_ahead_of_log_refuted.
